@@ -61,7 +61,13 @@ def diverged(net, k, hist, label, tainted=None):
                         fails.append(Failure("value-differs:echo-over-own-versioned-write", f"{db}/{key}: primary {a} n{i} {b}; own writes of n{i}: {own}; history {hist}"))
                         if tainted is not None: tainted.add((i, db, key))
                         continue
-                fails.append(Failure(f"{what}:{label}", f"{db}/{key}: primary {a} n{i} {b}; history {hist}"))
+                lab = label
+                if "wire-format" in label:
+                    # the recorded wire-format finding is the statement terminator stripped from the END of a key or value; any other
+                    # difference in these scenarios (a trimmed blank, a cut field, …) is a different way of breaking the property
+                    explained = (what == "value-differs" and a[0] != b[0] and a[0].rstrip(";") == b[0].rstrip(";")) or (what in ("key-missing", "status-differs") and (key.endswith(";") or any(len(c.split(" ")) > 1 and c.split(" ")[1].rstrip(";") == key and c.split(" ")[1] != key for (_, c) in hist)))
+                    if not explained: lab = label.replace("wire-format", "wire-format-not-a-terminator")
+                fails.append(Failure(f"{what}:{lab}", f"{db}/{key}: primary {a} n{i} {b}; history {hist}"))
     seen = set(); out = []
     for f in fails:
         if f.cls not in seen: seen.add(f.cls); out.append(f)
